@@ -113,14 +113,24 @@ def program(draw):
     return "\n".join(src) + "\n"
 
 
-def big_label_program(nfun, nif):
-    """Deterministic family: many jump targets per function / per module (assembler and disassembler tables)."""
+def big_label_program(nfun, nif, loops=False):
+    """Deterministic family: many jump targets per function / per module (assembler and disassembler tables).
+    With loops=True a while and a for loop follow every 100 conditionals and close the function: beyond the
+    disassembler's label table the back edges are printed as negative numeric offsets."""
     src = []
     for i in range(nfun):
         src.append("fn g_%d(n: int) -> int {" % i)
         src.append("    let mut acc: int = 0")
         for j in range(nif):
             src.append("    if (== n %d) { set acc (+ acc %d) } else { set acc (+ acc 1) }" % (j, j))
+            if loops and (j % 100 == 99 or j == nif - 1):
+                src.append("    let mut w_%d: int = 0" % j)
+                src.append("    while (< w_%d 3) {" % j)
+                src.append("        set w_%d (+ w_%d 1)" % (j, j))
+                src.append("        if (== w_%d 2) { continue }" % j)
+                src.append("        set acc (+ acc 1)")
+                src.append("    }")
+                src.append("    for q_%d in (range 0 2) { set acc (+ acc q_%d) }" % (j, j))
         src.append("    return acc")
         src.append("}")
         src.append("shadow g_%d { assert true }" % i)
@@ -296,9 +306,10 @@ def main(tier):
             nviol += 1
 
     # ---- (d) label-capacity family (deterministic)
-    for (nfun, nif) in ([(1, 10), (1, 300), (3, 200), (30, 40)] if tier == "quick" else
-                        [(1, 10), (1, 300), (1, 600), (3, 200), (30, 40), (100, 12), (2, 1100)]):
-        src = big_label_program(nfun, nif)
+    for (nfun, nif, loops) in ([(1, 10, False), (1, 300, False), (3, 200, False), (30, 40, False), (1, 300, True), (2, 120, True)] if tier == "quick" else
+                               [(1, 10, False), (1, 300, False), (1, 600, False), (3, 200, False), (30, 40, False), (100, 12, False), (2, 1100, False),
+                                (1, 300, True), (1, 700, True), (3, 260, True), (40, 30, True)]):
+        src = big_label_program(nfun, nif, loops)
         o, st_ = compile_nvm(ctx, src, "lbl")
         if not o:
             ev.cls("label_family_" + st_)
@@ -307,7 +318,7 @@ def main(tier):
         ev.case(src, nontrivial=True)
         ev.cls("label_family_" + s)
         if s == "fail" and not is_known(ctx, src, d, known_sigs):
-            p = common.save_replay(PROP, "labels_%d_%d.nano" % (nfun, nif), src)
+            p = common.save_replay(PROP, "labels_%d_%d%s.nano" % (nfun, nif, "_loops" if loops else ""), src)
             print("C11 module failure (labels %d x %d): %s" % (nfun, nif, d))
             common.report_violation(PROP, p)
             nviol += 1
